@@ -821,6 +821,15 @@ func (e *Engine) loadIn(env *specEnv, pl Place, t types.Type) Value {
 	if len(env.bound) == 0 && !env.quant {
 		e.typingAssume(env.s, t, v)
 		e.allocatedAssume(env.s, t, v)
+	} else {
+		switch t.Underlying().(type) {
+		case *types.Pointer, *types.Map, *types.Slice:
+			noteQuantRefSlot(v[0])
+		case *types.Interface:
+			if len(v) > 1 {
+				noteQuantRefSlot(v[1])
+			}
+		}
 	}
 	return v
 }
@@ -1093,6 +1102,21 @@ func (e *Engine) evalSpecCall(env *specEnv, n *ast.CallExpr) specVal {
 			return specVal{Value{Ne(a.v[0], Zero)}, boolT}
 		}
 		return specVal{Value{And(Eq(a.v[0], e.ruleNodeTag(rule, a.v[1])), Ne(a.v[1], Zero), Le(Zero, App("acc.depth", SInt, a.v[1])))}, boolT}
+	case "nall":
+		// nall(ctx, elem): the number of children of grammar element `elem` the node ctx has, i.e.
+		// len(ctx.All<Elem>()) - the same term the accessor contract of All<Elem>() uses
+		a := e.evalSpec(env, n.Args[0])
+		tn := grammarCtxName(a.t)
+		cs := e.tree.ctxs[tn]
+		elem := n.Args[1].(*ast.Ident).Name
+		if cs == nil {
+			e.specFail(n, "nall: not a grammar context: "+a.t.String())
+		}
+		if _, ok := cs.counts[elem]; !ok {
+			e.specFail(n, "nall: "+tn+" has no element "+elem)
+		}
+		cnt := App("acc.len."+cs.typeName+"."+elem, SInt, a.v[len(a.v)-1])
+		return specVal{Value{cnt}, intT}
 	case "rank":
 		a := e.evalSpec(env, n.Args[0])
 		return specVal{Value{App("old.ghost.rank", SInt, a.v[len(a.v)-1])}, intT}
